@@ -331,4 +331,12 @@ def RA_adjacency_container(ctx):
     R3_dense_index(ctx)
 
 
-RULES = [R1_decision_table, R2_loop_exits, R3_route_or_error, R4_response, R_graph_roles, R5_who_reports_no_path, RA_adjacency_container]
+def RB_edge_oriented(ctx):
+    """edge-oriented queries: "a route, not a partial one" depends on how the wrappers bind the origin and destination edges
+    around the vertex-oriented sub-search (shared with C01.R4; the conditional destination binding recorded there makes the
+    returned route stop short of the destination edge, which this property calls a partial route)"""
+    from props.C01 import R4_edge_oriented
+    R4_edge_oriented(ctx)
+
+
+RULES = [R1_decision_table, R2_loop_exits, R3_route_or_error, R4_response, R_graph_roles, R5_who_reports_no_path, RA_adjacency_container, RB_edge_oriented]
